@@ -103,7 +103,11 @@ def _zc_post(ctx):
         classes.append("C18:target-at-duration")
     if not on_grid:
         classes.append("C18:target-off-grid")
-    case = {"call": "zc", "width": ctx.self_.sampleWidth, "rate": rate, "samples": samples, "t": t, "step": step}
+    log = getattr(ctx.self_, "_vmon_log", None)
+    if log is not None and ctx.depth == 0:
+        log["events"].append(["q", t, step])
+    case = {"call": "zc", "width": ctx.self_.sampleWidth, "rate": rate, "samples": samples, "t": t, "step": step,
+            "history": {"initial": log["initial"], "events": list(log["events"])} if log is not None and any(e[0] == "e" for e in log["events"]) else None}
     mech = {"op": "zc", "exc": type(ctx.exc).__name__ if ctx.exc else None, "step_integer": step_int}
     sig = ("zc", wclass, ctx.self_.sampleWidth, float(sps) if sps < 20 else 20, "0" if t == 0 else ("end" if t == dur else ("grid" if on_grid else "off")),
            type(ctx.exc).__name__ if ctx.exc else "ret")
@@ -380,6 +384,7 @@ def _workload(tier, rng, shard, nshards):
             guarded(wav.findNearestZeroCrossing, rng.uniform(0, n / rate), rng.choice(steps))
         guarded(wav.findNearestZeroCrossing, rng.randrange(0, n + 1) / rate, rng.choice([1 / rate, 1.5 / rate, 0.5 / rate]))
         # histories on ONE object: query, edit the recording in place without changing its length, ask the same question again
+        wav._vmon_log = {"initial": list(samples), "events": []}
         for _h in range(3):
             t = rng.randrange(0, n + 1) / rate
             st = rng.choice(steps)
@@ -391,6 +396,7 @@ def _workload(tier, rng, shard, nshards):
                 i0, i1 = max(0, k - 2), min(n, k + 3)
             lim = 2 ** (8 * wav.sampleWidth - 1) - 1
             new = [rng.randrange(1, lim + 1) for _ in range(i1 - i0)]
+            wav._vmon_log["events"].append(["e", i0, i1, new])
             with core.paused():
                 wav.replaceSegment(i0 / rate, i1 / rate, W.encode(new, wav.sampleWidth))
             REC.cls("C18:requery-after-in-place-edit")
@@ -426,8 +432,18 @@ def replay(v, work):
     c = v["case"]
     with contextlib.redirect_stdout(io.StringIO()):
         if c["call"] == "zc":
-            wav = audio.Wav(W.encode(c["samples"], c["width"]), [1, c["width"], c["rate"], len(c["samples"]), "NONE", "not compressed"])
-            guarded(wav.findNearestZeroCrossing, c["t"], c["step"])
+            h = c.get("history")
+            if h:  # the recorded history of one object: queries interleaved with equal-length in-place edits
+                wav = audio.Wav(W.encode(h["initial"], c["width"]), [1, c["width"], c["rate"], len(h["initial"]), "NONE", "not compressed"])
+                for ev in h["events"]:
+                    if ev[0] == "q":
+                        guarded(wav.findNearestZeroCrossing, ev[1], ev[2])
+                    else:
+                        with core.paused():
+                            wav.replaceSegment(ev[1] / c["rate"], ev[2] / c["rate"], W.encode(ev[3], c["width"]))
+            else:
+                wav = audio.Wav(W.encode(c["samples"], c["width"]), [1, c["width"], c["rate"], len(c["samples"]), "NONE", "not compressed"])
+                guarded(wav.findNearestZeroCrossing, c["t"], c["step"])
         elif c["call"] == "tgz":
             wav = audio.Wav(W.encode(c["samples"], c["width"]), [1, c["width"], c["rate"], len(c["samples"]), "NONE", "not compressed"])
             with core.paused():
